@@ -2,7 +2,7 @@
 from sched import *
 
 PROP = "C06"
-THEOREMS = [tuple(x) for x in json.load(open(os.path.join(VERIF, "lib", "pins", PROP + ".json")))]
+THEOREMS = ["C06", "C06Bound"]
 
 
 def probe_f19(run, har):
